@@ -190,6 +190,8 @@ class SubTissues:
 
     def check_edge(self, d, a, d2, r, r2):
         viol = []
+        if not r.get("obs") or not r2.get("obs"):
+            return [], []          # one side is outside the statement (coincident two-point interfaces)
         p1 = [tuple(map(str, x)) for x in r["obs"]["phys"]]
         p2 = [tuple(map(str, x)) for x in r2["obs"]["phys"]]
         if a[0] == "add":
